@@ -6,8 +6,11 @@ depends on which spelling a maintainer prefers.
       that does nothing but raise AssertionError exactly when its parameter is false (decided by path enumeration; the
       helper may live in a sibling module, be a method, build its message lazily)
   all(map(f, S)) / any(map(f, S))                     ->  all(f(_each) for _each in S)
-  x = A if c else B                                   ->  if c: x = A else: x = B
+  not any(E for x in S)                               ->  all(not E for x in S)
+  if (x := E) is not None: …                          ->  x = E; if x is not None: …     (walrus evaluated first in the test)
+  x = A if c else B  /  return A if c else B          ->  if c: x = A else: x = B  /  if c: return A else: return B
   for x in (A if c else ()): BODY                     ->  if c: for x in A: BODY
+  for a, b in product(X, Y): BODY                     ->  for a in X: for b in Y: BODY     (X, Y plain reads BODY does not mention)
   X.extend(E for v in IT if C) / X += [E for …]       ->  for v in IT: if C: X.append(E)        (S.update(…) -> S.add, D.update(pairs) -> D[k] = v)
   NAME = make(a…)   where make only defines and       ->  def NAME(…): <the inner function's body with make's parameters replaced>
       returns one inner function
@@ -264,8 +267,46 @@ def normalise(tree):
     helpers = {k: v for k, v in helpers.items() if k in local or k in imported}
 
     class T(ast.NodeTransformer):
+        def _hoist_walrus(self, n):
+            """if (x := E) is not None: …   ->   x = E; if x is not None: …     (the walrus is the first thing the test evaluates)"""
+            def first(e):
+                # the sub-expression evaluated first, with a setter to replace it
+                if isinstance(e, ast.NamedExpr):
+                    return e, None
+                if isinstance(e, ast.Compare):
+                    r = first(e.left)
+                    if r is not None:
+                        return (r[0], r[1]) if r[1] is not None else (r[0], lambda new, e=e: setattr(e, "left", new))
+                if isinstance(e, ast.BoolOp):
+                    r = first(e.values[0])
+                    if r is not None:
+                        return (r[0], r[1]) if r[1] is not None else (r[0], lambda new, e=e: e.values.__setitem__(0, new))
+                if isinstance(e, ast.UnaryOp):
+                    r = first(e.operand)
+                    if r is not None:
+                        return (r[0], r[1]) if r[1] is not None else (r[0], lambda new, e=e: setattr(e, "operand", new))
+                return None
+            r = first(n.test)
+            if r is None or not isinstance(r[0].target, ast.Name):
+                return None
+            w, setter = r
+            load = ast.copy_location(ast.Name(id=w.target.id, ctx=ast.Load()), w)
+            if setter is None:
+                n.test = load
+            else:
+                setter(load)
+            return ast.copy_location(ast.Assign(targets=[ast.copy_location(ast.Name(id=w.target.id, ctx=ast.Store()), w)], value=w.value), n)
+
         def visit_If(self, n):
             self.generic_visit(n)
+            if self.depth > 0 and any(isinstance(x, ast.NamedExpr) for x in ast.walk(n.test)):
+                pre = self._hoist_walrus(n)
+                if pre is not None:
+                    r = self.visit_If_core(n)
+                    return [pre] + (r if isinstance(r, list) else [r])
+            return self.visit_If_core(n)
+
+        def visit_If_core(self, n):
             if not n.orelse and len(n.body) == 1:
                 args = _is_assertion_raise(n.body[0])
                 if args is not None:
@@ -297,6 +338,15 @@ def normalise(tree):
             self.depth -= 1
             return n
 
+        def visit_Return(self, n):
+            self.generic_visit(n)
+            # return A if c else B   ->   if c: return A else: return B
+            if isinstance(n.value, ast.IfExp) and self.depth > 0:
+                a = ast.copy_location(ast.Return(value=n.value.body), n)
+                b = ast.copy_location(ast.Return(value=n.value.orelse), n)
+                return ast.copy_location(ast.If(test=n.value.test, body=[a], orelse=[b]), n)
+            return n
+
         def visit_Assign(self, n):
             self.generic_visit(n)
             # x = A if c else B   ->   if c: x = A else: x = B      (inside functions; module / class level bindings stay one statement)
@@ -311,6 +361,20 @@ def normalise(tree):
             self.generic_visit(n)
             # for x in (A if c else ()): BODY   ->   if c: for x in A: BODY
             it = n.iter
+            # for a, b in product(X, Y): BODY  ->  for a in X: for b in Y: BODY     (X, Y plain reads that BODY does not touch: the
+            # snapshot product() takes and the live nested iteration then visit the same pairs in the same order)
+            if isinstance(it, ast.Call) and isinstance(it.func, (ast.Name, ast.Attribute)) and (it.func.id if isinstance(it.func, ast.Name) else it.func.attr) == "product" \
+                    and not it.keywords and isinstance(n.target, ast.Tuple) and len(n.target.elts) == len(it.args) >= 2 and not n.orelse:
+                from .unroll import _simple
+                from .core import norm as _norm
+                texts = [_norm(a) for a in it.args]
+                body_txt = " ".join(_norm(b) for b in n.body)
+                if all(_simple(a) and not isinstance(a, ast.Constant) for a in it.args) and not any(t in body_txt for t in texts) \
+                        and not any(isinstance(x, (ast.Break,)) for b in n.body for x in ast.walk(b)):
+                    inner = n.body
+                    for tgt, src in reversed(list(zip(n.target.elts, it.args))):
+                        inner = [ast.copy_location(ast.For(target=tgt, iter=src, body=inner, orelse=[]), n)]
+                    return inner[0]
             if isinstance(it, ast.IfExp) and not n.orelse:
                 empty = lambda e: isinstance(e, (ast.Tuple, ast.List)) and not e.elts
                 if empty(it.orelse) and not empty(it.body):
@@ -319,6 +383,17 @@ def normalise(tree):
                 if empty(it.body) and not empty(it.orelse):
                     n.iter = it.orelse
                     return ast.copy_location(ast.If(test=_negate(it.test), body=[n], orelse=[]), n)
+            return n
+
+        def visit_UnaryOp(self, n):
+            self.generic_visit(n)
+            # not any(E for x in S)  ->  all(not E for x in S)
+            if isinstance(n.op, ast.Not) and isinstance(n.operand, ast.Call) and isinstance(n.operand.func, ast.Name) and n.operand.func.id == "any" \
+                    and len(n.operand.args) == 1 and not n.operand.keywords and isinstance(n.operand.args[0], (ast.GeneratorExp, ast.ListComp)):
+                g = n.operand.args[0]
+                g.elt = ast.copy_location(_negate(g.elt), g.elt)
+                n.operand.func = ast.copy_location(ast.Name(id="all", ctx=ast.Load()), n.operand.func)
+                return n.operand
             return n
 
         def visit_Call(self, n):
@@ -335,16 +410,22 @@ def normalise(tree):
             return n
     need = False
     for x in nodes:
-        if isinstance(x, ast.For) and isinstance(x.iter, ast.IfExp):
+        if isinstance(x, ast.For) and (isinstance(x.iter, ast.IfExp) or (isinstance(x.iter, ast.Call) and "product" in ast.dump(x.iter.func))):
             need = True
             break
-        if isinstance(x, ast.Assign) and isinstance(x.value, ast.IfExp):
+        if isinstance(x, (ast.Assign, ast.Return)) and isinstance(x.value, ast.IfExp):
+            need = True
+            break
+        if isinstance(x, ast.NamedExpr):
             need = True
             break
         if isinstance(x, ast.If):
             if not x.orelse and len(x.body) == 1 and isinstance(x.body[0], ast.Raise):
                 need = True
                 break
+        elif isinstance(x, ast.UnaryOp) and isinstance(x.op, ast.Not) and isinstance(x.operand, ast.Call) and isinstance(x.operand.func, ast.Name) and x.operand.func.id == "any":
+            need = True
+            break
         elif isinstance(x, ast.Call) and isinstance(x.func, ast.Name):
             if x.func.id in helpers or (x.func.id in ("all", "any") and len(x.args) == 1 and isinstance(x.args[0], ast.Call)
                                         and isinstance(x.args[0].func, ast.Name) and x.args[0].func.id == "map"):
